@@ -7,6 +7,7 @@ use program_structure::constants::Curve;
 use program_structure::file_definition::FileLibrary;
 use program_structure::ir::degree_meta::{Degree, DegreeMeta};
 use program_structure::ir::value_meta::{ValueMeta, ValueReduction};
+use program_structure::ir::variable_meta::VariableMeta;
 use program_structure::ir::*;
 use program_structure::report::ReportCollection;
 use serde_json::{json, Value};
@@ -101,6 +102,7 @@ pub fn stmt_json(s: &Statement) -> Value {
     use Statement::*;
     let mut v = match s {
         Declaration { names, var_type, dimensions, .. } => json!({"k": "decl", "names": names.iter().map(name_json).collect::<Vec<_>>(),
+            "names_dbg": names.iter().map(|n| format!("{:?}", n)).collect::<Vec<_>>(),
             "ty": type_str(var_type), "dims": dimensions.iter().map(expr_json).collect::<Vec<_>>()}),
         IfThenElse { cond, true_index, false_index, .. } => json!({"k": "if", "cond": expr_json(cond), "t": true_index,
             "f": false_index.map(|x| x as i64).unwrap_or(-1)}),
@@ -118,6 +120,19 @@ pub fn stmt_json(s: &Statement) -> Value {
     v["e"] = json!(meta.end());
     v["val"] = val_json(meta.value_knowledge().get_reduces_to());
     v["ty_known"] = json!(meta.type_knowledge().variable_type().map(type_str));
+    // cached variable uses (what the data-flow passes consume)
+    let mut vr: Vec<String> = s.variables_read().map(|u| format!("{:?}", u.name())).collect();
+    vr.sort();
+    vr.dedup();
+    let mut vw: Vec<String> = s.variables_written().map(|u| format!("{:?}", u.name())).collect();
+    vw.sort();
+    vw.dedup();
+    let mut vu: Vec<String> = s.variables_used().map(|u| format!("{:?}", u.name())).collect();
+    vu.sort();
+    vu.dedup();
+    v["vr"] = json!(vr);
+    v["vw"] = json!(vw);
+    v["vu"] = json!(vu);
     v
 }
 
@@ -147,7 +162,32 @@ pub fn cfg_json(cfg: &Cfg) -> Value {
                              "ndims": d.dimensions().len()}))
         .collect();
     decls.sort_by_key(|d| d.to_string());
+    // Debug (full, versioned) name -> Display name (what messages show)
+    let mut disp = serde_json::Map::new();
+    for n in cfg.parameters().iter() {
+        disp.insert(format!("{:?}", n), json!(n.to_string()));
+    }
+    for (n, _) in cfg.declarations().iter() {
+        disp.insert(format!("{:?}", n), json!(n.to_string()));
+    }
+    for b in cfg.iter() {
+        for st in b.iter() {
+            for u in st.variables_used() {
+                disp.insert(format!("{:?}", u.name()), json!(u.name().to_string()));
+            }
+            if let Statement::Declaration { names, .. } = st {
+                for n in names.iter() {
+                    disp.insert(format!("{:?}", n), json!(n.to_string()));
+                }
+            }
+        }
+    }
     json!({"name": cfg.name(), "blocks": blocks, "params": cfg.parameters().iter().map(name_json).collect::<Vec<_>>(), "decls": decls,
+           "disp": disp,
+           "params_dbg": cfg.parameters().iter().map(|n| format!("{:?}", n)).collect::<Vec<_>>(),
+           "decls_dbg": cfg.declarations().iter().map(|(n, d)| json!({"n": format!("{:?}", n), "ty": type_str(d.variable_type()),
+                        "s": d.file_location().start, "e": d.file_location().end})).collect::<Vec<_>>(),
+           "params_loc": [cfg.parameters().file_location().start, cfg.parameters().file_location().end],
            "kind": cfg.definition_type().to_string()})
 }
 
